@@ -1,13 +1,76 @@
-(* C07 — pinned statements; proofs live in Proofs/. *)
-From NW Require Import Base.Bytes Model.SchemaTypes Gen.Schema Model.Codec Model.Ids Model.Server.
+(* C07 — Client identities are well-formed, unique while live, and cannot be forged.
+   Pinned statements (types pasted verbatim from the proved lemmas by tools/pin.py); proofs in Proofs/Server*.v. *)
+From NW Require Import Base.Bytes Model.SchemaTypes Gen.Schema Model.Codec Model.MsgInfo Model.Ids Model.Server.
+From NW Require Import Proofs.ServerLib Proofs.ServerRoute Proofs.ServerHandlers Proofs.ServerSteps Proofs.ServerPhases.
+From NW Require Import Proofs.ServerInvBase Proofs.ServerInv Proofs.ServerUniq Proofs.ServerInvCor.
+From NW Require Import Proofs.ServerDelivery Proofs.ServerEvents Proofs.ServerIdentity.
 
-(* the model computes: a client connects, identifies and creates a channel *)
-Example C07_model_smoke :
-  let cfg := {| domain := bs "localhost"; has_mod := false; op_auth := false; op_fbp := false; op_fev := false; op_spp := false;
-                proto := []; max_clients := 10; max_subs := 10; max_payload_cfg := 1024; max_inflight := 10; max_message := 1024;
-                keepalive := 60000; min_keepalive := 1000; max_conns := 16; pool_budget := 4194304 |} in
-  let s := run_state cfg init [Open 1; Bytes 1 (bs "CONNECT version=1 heartbeat_interval=0" ++ [NL]) [] [];
-                               Bytes 1 (bs "IDENTIFY username=alice" ++ [NL]) [] [];
-                               Bytes 1 (bs "JOIN id=1 channel=!c1@localhost" ++ [NL]) [] []] in
-  map fst (chans s) = [bs "c1"] /\ map fst (router s) = [bs "alice"].
-Proof. vm_compute. split; reflexivity. Qed.
+Theorem C07_alnum_is_not_space_nor_at :
+  forall c : N, is_alnum_cp c = true -> is_ws_cp c = false /\ c <> 64.
+Proof. exact alnum_not_ws_not_at. Qed.
+
+Theorem C07_local_nid_wellformed :
+  forall (dom u : str) (n : nid),
+    make_local_nid dom u = Some n ->
+    nu n = u /\ nd n = dom /\ u <> [] /\ forallb username_char (utf8_decode u) = true.
+Proof. exact C07_wellformed. Qed.
+
+Theorem C07_no_space_no_at :
+  forall (dom u : str) (n : nid),
+    make_local_nid dom u = Some n ->
+    forall c : N, In c (utf8_decode (nu n)) -> is_ws_cp c = false /\ c <> 64.
+Proof. exact C07_no_ws_no_at. Qed.
+
+Theorem C07_never_bare_domain :
+  forall (dom u : str) (n : nid),
+    make_local_nid dom u = Some n -> nid_full n = u ++ [64] ++ dom /\ nid_full n <> dom.
+Proof. exact C07_full_form. Qed.
+
+Theorem C07_assigned_in_reachable_states :
+  forall (cfg : scfg) (ops : list op) (h : N) (cn : conn) (n : nid),
+    let s := run_state cfg init ops in
+    nlookup h (conns s) = Some cn ->
+    c_nid cn = Some n ->
+    nd n = domain cfg /\
+    nu n <> [] /\
+    forallb username_char (utf8_decode (nu n)) = true /\
+    (forall c : N, In c (utf8_decode (nu n)) -> is_ws_cp c = false /\ c <> 64) /\
+    nid_full n = nu n ++ [64] ++ domain cfg /\
+    nid_full n <> domain cfg /\
+    (Datatypes.length (nu n) <= USERNAME_MAX)%nat /\ validate_domain (domain cfg) = true.
+Proof. exact C07_assigned_wellformed_all. Qed.
+
+Theorem C07_unique_while_live :
+  forall (cfg : scfg) (ops : list op) (u : str) (hs : list N),
+    auth_required cfg = false ->
+    ops_ok cfg init ops ->
+    alookup u (router (run_state cfg init ops)) = Some hs -> Datatypes.length hs = 1%nat.
+Proof. exact C07_unique_live. Qed.
+
+Theorem C07_needs_no_auth_witness :
+  ~
+    (forall (cfg : scfg) (ops : list op) (u : str) (hs : list N),
+     ops_ok cfg init ops ->
+     alookup u (router (run_state cfg init ops)) = Some hs -> Datatypes.length hs = 1%nat).
+Proof. exact C07_unique_live_needs_no_auth. Qed.
+
+Theorem C07_name_free_again :
+  forall (cfg : scfg) (s : state) (h : N) (cn : conn) (n : nid) (sc : list moutcome)
+      (hi : list (str * nid)),
+    Inv cfg s ->
+    nlookup h (conns s) = Some cn ->
+    c_nid cn = Some n ->
+    alookup (nu n) (router s) = Some [h] ->
+    let s' := fst (step cfg s (Hangup h sc hi)) in
+    alookup (nu n) (router s') = None /\ (forall h' : N, register (nu n) h' true s' <> None).
+Proof. exact C07_name_free_after_close. Qed.
+
+Theorem C07_sender_identity_in_messages :
+  forall (cfg : scfg) (h : N) (me : nid) (m : msg) (payload : list N) 
+      (c : ctx) (h' : N) (m' : msg) (q : list N),
+    In (OSend h' m' (Some q)) (new_outs c (fst (h_broadcast cfg h me m payload c))) ->
+    is_kind m' "MESSAGE" = true /\
+    get_str m' "from" = nid_full me /\
+    get_str m' "channel" = get_str m "channel" /\
+    get_num m' "length" = N.of_nat (Datatypes.length q) /\ h' <> h.
+Proof. exact C08_message_attribution. Qed.
